@@ -104,12 +104,7 @@ impl<SystemType : System> History<SystemType> {
 //@ rewrite 1 /format!\("\{\}\/\{\}", self\.path, rule_ticket\)/ => fmt_slash(&self.path, &rule_ticket.human_readable())
 //@ rewrite 1 /bincode::deserialize\(&content\)/ => bincode_deserialize_h(&content)
 //@ retype 1 /let mut content = Vec::new\(\);/ => let mut content : Vec<u8> = Vec::new();
-//@ spec
-        ensures *final(w) == *old(w),
-            // damaged state is rejected or treated as "no history" (file could not be opened), never misread as other data   //# O-H-reject [C11]
-            res matches Ok(h) ==> is_empty_hist(h) || (old(w).files.contains_key(self.hpath(*rule_ticket))
-                && decodes_h(old(w).files[self.hpath(*rule_ticket)].content) && h == decode_h(old(w).files[self.hpath(*rule_ticket)].content)),
-            !old(w).files.contains_key(self.hpath(*rule_ticket)) ==> (res matches Ok(h) && is_empty_hist(h)),     //# O-H-absent-is-empty [C11]
+//@ spec-file shared/read_rule_history.spec
 //@ end
 }
 
